@@ -190,6 +190,9 @@ CONTEXTS = [
     ("property-assign", "t := @V\nt.a = 5\nprint(t)\n", {"object"}, {}, set()),
     ("indexed-value", "print(@V[0])\n", {"string", "list"}, {"string": ['"ab"'], "list": ["l1"]}, {"object"}),
     ("range-indexed-value", "print(@V[0:0])\n", {"string", "list"}, {}, set()),
+    ("range-indexed-value-whole", "print(@V[:])\nprint(1)\n", {"string", "list"}, {}, set()),
+    ("range-indexed-value-from", "print(@V[0:])\nprint(1)\n", {"string", "list"}, {}, set()),
+    ("range-indexed-value-to", "print(@V[:0])\nprint(1)\n", {"string", "list"}, {}, set()),
     ("type-function", "print(@V->type())\n", set(KINDS) - {"null"}, {}, set()),
     # the right-hand side of a range assignment is a list or a string — of the right size here for every kind that has a size,
     # so that the kind is the only thing wrong (an object with as many properties as the range is long, …)
